@@ -194,6 +194,7 @@ fn main() {
         ("KeepAlive", gen_keepalive),
         ("Compression", gen_compression),
         ("Client", gen_client),
+        ("Connection", gen_connection),
     ];
     let mut failed = false;
     for (name, f) in steps {
@@ -1128,6 +1129,59 @@ fn gen_keepalive(repo: &Path, g: &mut Gen) -> R<()> {
         io_arm && io_reset, io_arm && io_notconn, open_arm && bind_code);
     let _ = writeln!(s, "/-- {ps_rel}: where the wrapper fires the task's waker itself (`cx.waker().wake_by_ref()`): when the budget is exhausted, after arming the next attempt, after a successful reconnection -/\ndef wakesOnExhaustion : Bool := {wake_exhaust}\ndef wakesAfterArmingAttempt : Bool := {wake_arm}\ndef wakesOnReconnect : Bool := {wake_ok}\n/-- {ps_rel}: `poll_close` polls the reconnection attempt while the wrapper is Disconnected -/\ndef closeKeepsReconnecting : Bool := {close_polls}");
     g.emit("KeepAlive", &[rr_rel, ps_rel, h_rel, rq_rel], &s);
+    Ok(())
+}
+
+// ----------------------------------------------------------------------------------------- shared connection
+
+/// `client/src/connection.rs`: `ClientConnection::reconnect` is called by every stream of a `Client` that re-establishes
+/// itself; all of them share the one connection. Is a new connection dialled (and `self.connection` replaced) only when the
+/// current one is closed, i.e. is every replacement of `self.connection` inside an `if` whose condition asks for the close
+/// reason of the current connection?
+fn gen_connection(repo: &Path, g: &mut Gen) -> R<()> {
+    let rel = "client/src/connection.rs";
+    let src = Src::load(repo, rel)?;
+    let body = method_body(&src, "reconnect", 0).ok_or_else(|| Shape(format!("{rel}: fn reconnect not found")))?;
+    struct V { guarded: usize, replaced_inside: usize, replaced_outside: usize }
+    fn replaces(t: &str) -> bool { t.contains("self . connection =") || (t.contains("replace (") && t.contains("& mut self . connection")) }
+    impl<'ast> syn::visit::Visit<'ast> for V {
+        fn visit_expr_if(&mut self, i: &'ast syn::ExprIf) {
+            let c = &i.cond;
+            let asks = { let t = quote::quote!(#c).to_string(); t.contains("close_reason") && !t.contains("is_none") && !t.trim_start().starts_with('!') };
+            if asks { self.guarded += 1; syn::visit::visit_block(self, &i.then_branch); self.guarded -= 1; } else { syn::visit::visit_block(self, &i.then_branch); }
+            if let Some((_, e)) = &i.else_branch { syn::visit::visit_expr(self, e); }
+        }
+        fn visit_stmt(&mut self, st: &'ast syn::Stmt) {
+            // only statements that are not themselves compound: the visitor descends into blocks on its own
+            let compound = matches!(st, syn::Stmt::Expr(syn::Expr::If(_) | syn::Expr::Block(_) | syn::Expr::Match(_) | syn::Expr::Loop(_) | syn::Expr::While(_) | syn::Expr::ForLoop(_), _));
+            if !compound {
+                let t = quote::quote!(#st).to_string();
+                if replaces(&t) { if self.guarded > 0 { self.replaced_inside += 1; } else { self.replaced_outside += 1; } }
+            }
+            syn::visit::visit_stmt(self, st);
+        }
+    }
+    let mut v = V { guarded: 0, replaced_inside: 0, replaced_outside: 0 };
+    // the early-return form: `if <current connection is not closed> { return … }` guards everything after it
+    for st in &body.stmts {
+        if let syn::Stmt::Expr(syn::Expr::If(i), _) = st {
+            let c = &i.cond;
+            let t = quote::quote!(#c).to_string();
+            let tb = &i.then_branch;
+            let not_closed = t.contains("close_reason") && (t.contains("is_none") || t.trim_start().starts_with('!'));
+            if not_closed && quote::quote!(#tb).to_string().contains("return") && i.else_branch.is_none() {
+                syn::visit::Visit::visit_stmt(&mut v, st);
+                v.guarded += 1;
+                continue;
+            }
+        }
+        syn::visit::Visit::visit_stmt(&mut v, st);
+    }
+    if v.replaced_inside + v.replaced_outside == 0 { return shape(rel, "reconnect(): `self.connection` is never replaced"); }
+    let only_if_closed = v.replaced_outside == 0;
+    let mut s = String::new();
+    let _ = writeln!(s, "/-- {rel}: `ClientConnection::reconnect` replaces the shared connection only when the current one is closed (every replacement of `self.connection` sits under `if self.connection.close_reason().is_some()`) -/\ndef reconnectOnlyIfClosed : Bool := {only_if_closed}");
+    g.emit("Connection", &[rel], &s);
     Ok(())
 }
 
